@@ -14,6 +14,33 @@ COMMON_NOTE = ("Trusted: Coq 8.16.1 kernel (coqc full .vo build; vm_compute for 
 
 # id -> (claimed text, level note (specific), design ref)
 CHECKS = {
+    "C06": ("15 theorems (C06_users_le_capacity, queue_sorted, rank_meaning, grant_is_head, no_overtaking, free_slot_has_release, "
+            "no_idle_slot_at_advance, release_idempotent, release_twice, preempt_call, victim_is_worst_ranked, preempt_request, "
+            "evictions_strict, only_preemptive_evicts, users_have_usage_since) hold for Resource/PriorityResource/PreemptiveResource of "
+            "every capacity >= 1 and every admissible history of any length of the Gallina automaton coq/Res/Resource.v "
+            "(request/release/cancel/with-exit/process-end operations by any number of processes, kernel event processing in any order, "
+            "clock advances); the real classes are driven with 500 (quick) / 8000 (thorough) random histories whose observed execution "
+            "is replayed in the model and compared after every action (users, queue, count, pending events, triggered requests, "
+            "interrupts) and checked admissible.",
+            "Full. Standalone automaton (not inside the kernel model). Hypotheses, checked on every observed history: a process holds "
+            "or awaits at most one request; cancel/with-exit by the owner and not repeated; an ended process issues nothing. Monitor "
+            "only (not in Coq): delivery of the Interruption into the victim's generator (C04) and the `resource` field of Preempted. "
+            "That the kernel empties the instant before advancing is C01 and is checked as admissibility of every observed run. One "
+            "defect repaired (ffa1b36: preempting a user whose process has ended raised and stranded the preemptor).",
+            "DESIGN.md section 4 C06, section 8"),
+    "C07": ("29 theorems (C07_level_bounds, level_conservation, *store_bounded, delivered_exactly_once_*, triggered_at_most_once, "
+            "store_fifo, prio_store_min, filter_store_first_match, puts_fcfs, gets_fcfs, filter_overtake_only_nonmatching, "
+            "heads_blocked_at_advance + per-kind forms, heappop_min_and_multiset, heappush_multiset, heap_total, and the refutation of "
+            "the unrepaired cancel) hold for every capacity, initial level, item/priority/filter and every admissible interleaving of "
+            "put/get/cancel/event-processing/clock-advance of the model coq/Res/ContainerStore.v (heapq transcribed in Res/Heap.v); the "
+            "model is compared with the real Container/Store/PriorityStore/FilterStore after every action on 3000 (quick) / 40000 "
+            "(thorough) generated histories per run, each observed execution checked admissible.",
+            "Full. Standalone automaton. Assumed: request events are triggered only by the resource; Container 0<=init<=capacity; "
+            "integer priority keys; which of two equal-priority items leaves first is reproduced by the model (heap arrays compared) "
+            "but is not a theorem. Trusted: the kernel does not advance the clock past a triggered unprocessed event (C01; checked per "
+            "observed run). Defects repaired: e27f019 (cancel of a blocking head request did not rescan) and the fractional store "
+            "capacity guard (see known_findings.json).",
+            "DESIGN.md section 4 C07, section 8"),
     "C09": ("23 theorems of Props/C09.v (departure recurrence incl. rate 0 and FIFO, tail-drop iff in byte and packet mode, occupancy bound, "
             "counters, exact byte occupancy, per-hop stamps, PortMonitor samples, never-late / work-conserving, RED EWMA recurrence and the "
             "three RED regions, six refutations of the code as found) hold for all rates, limits/modes, thresholds/weights and all "
